@@ -152,6 +152,13 @@ def check(case, ctx):
         ctx.true(name + ":pointwise-shape", b.shape == (n_te,), "pointwise shape %s for %d test points" % (b.shape, n_te))
         ctx.true(name + ":nonneg", bool(np.all(b >= 0)) and a >= 0, "negative value")
         ctx.close(name + ":global==rms(pointwise)", a, float(np.sqrt(np.mean(b ** 2))), 1e-10 * max(1.0, a), "global vs RMS of pointwise")
+        # the value of a test point does not depend on which other points are tested with it
+        te_used = te if (name != "LRE" or case.get("lre_native")) else te[:4]
+        if len(te_used) >= 2:
+            sub = {"train_idx": tr, "test_idx": te_used[: max(1, len(te_used) // 2)]}
+            with ctx.lib(name + "-test-subset"):
+                b_sub = np.asarray(pw(X, Y, **extra, **sub))
+            ctx.close(name + ":test-subset-independence", b_sub, b[: len(b_sub)], 1e-9 * max(1.0, float(b.max())), "pointwise values on a subset of the test points")
         with ctx.lib(name + "-transformed"):
             a2 = gl(Xs, Ys, **extra, **idx)
         if abs(a2 - a) > inv_tol * max(1.0, a):
